@@ -36,6 +36,9 @@ pub struct RunReport {
     pub outcome_cats: BTreeMap<String, u64>,
     /// simulated clock time covered by this run's scripted readings (ns)
     pub sim_time_ns: u128,
+    /// lowest / highest scripted clock reading handed out in this run
+    pub clock_lo: Option<i128>,
+    pub clock_hi: Option<i128>,
     pub lines: Vec<String>,
     pub trace: Vec<String>,
 }
@@ -83,9 +86,9 @@ fn record_fault(r: &mut RunReport, op: &Op, info: &ExecInfo) {
                     *r.fired.entry("F8-clock-beyond-range/now".into()).or_insert(0) += 1;
                 }
             }
-            let used = &op.clock[..info.clock_reads.min(op.clock.len())];
-            if let (Some(lo), Some(hi)) = (used.iter().min(), used.iter().max()) {
-                r.sim_time_ns += (hi - lo) as u128;
+            for c in &op.clock[..info.clock_reads.min(op.clock.len())] {
+                r.clock_lo = Some(r.clock_lo.map_or(*c, |x: i128| x.min(*c)));
+                r.clock_hi = Some(r.clock_hi.map_or(*c, |x: i128| x.max(*c)));
             }
         }
         if info.host_reads > 0 {
@@ -134,6 +137,10 @@ fn finish_fp(r: &mut RunReport, sched_fp: u64, outcomes: &[Vec<ExecInfo>]) {
         h.u64(0xfeed);
     }
     r.fingerprint = h.0;
+    // simulated time covered = span of the clock readings the run consumed
+    if let (Some(lo), Some(hi)) = (r.clock_lo, r.clock_hi) {
+        r.sim_time_ns = (hi - lo) as u128;
+    }
 }
 
 // ------------------------------------------------------------------ C20
